@@ -83,7 +83,12 @@ def one_project(job):
         try:
             rs = projrun.run_impl_seq(p0, [p0["args"]] + [a for _, a in seq])
             for (kind, a), r in zip(seq, rs[1:]):
-                out.append((kind + "@warm", a, warm_view(r, r0)))
+                v = warm_view(r, r0)
+                if kind == "hpartition":
+                    # the same shard from an empty build directory: the set of builds must be the same
+                    rc = projrun.run_impl(dict(p0, args=a))
+                    v["cold_tuples"] = sorted((b["builder"], b["app"], b.get("app_context") or "") for b in rc.get("dump", []) if b["decision"] == "built")
+                out.append((kind + "@warm", a, v))
         except ninjaparse.ParseError:
             pass
         vs = [(kind, a) for kind, a in vs if kind == "local"]
@@ -152,6 +157,10 @@ def judge(chk, p0, r0, vs, n):
             part_tuples.append(tuples(r))
         if kind == "hpartition":
             hpart_tuples.append(tuples(r))
+            if "cold_tuples" in r and tuples(r) != r["cold_tuples"]:
+                chk.fail_oracle("indep:partition-depends-on-earlier-run", f"{a}: in the build directory of earlier runs the shard configures {tuples(r)}, "
+                                f"with an empty build directory {r['cold_tuples']}", {"project": p0, "args": a})
+                return
         if kind == "local":
             mods_here = {b["app"] for b in r["dump"]}
             if c:
